@@ -12,8 +12,9 @@
    head variable is unbound).
 
    Contents
-     0. Lift         heads satisfied by (T,T) are satisfied by (X,T), X <= T: choices with upper bounds only (any
-                     conditions), choices / disjunctions / head aggregates whose conditions mean the same in X and T.
+     0. Lift         heads satisfied by (T,T) are satisfied by (X,T), X <= T: choices and head aggregates with ANY bounds
+                     and ANY conditions (Sem/Sat.v evaluates their bounds in the total interpretation only, as clingo
+                     does); disjunctions whose conditions mean the same in X and T.
      1. Overapprox   domain_overapprox: in every stable model T of a program Q that contains, for every rule /
                      head element deriving a predicate p with dom p = Some dp, a rule  dp(args) :- B'  whose body
                      elements are [covered] by the source (copied simple literal of any sign; domain image of a POSITIVE
@@ -31,15 +32,15 @@
      3. Witnesses    domain_negation_refuted       `__dom_p(X,M) :- q(X,M), not __dom_r(X)` (known finding domain-negation)
                      domain_ignores_input_refuted  instance facts of a predicate with a domain (finding domain-ignores-input)
                      domain_condition_refuted      `__dom_a :- b(X) : __dom_c(X)` (condition of a conditional literal; NEW)
-                     lower_bound_cycle_refuted     why choices with a lower bound need static conditions in Sem/Sat.v
-                                                   (`1 {p : c}. c :- p.` has the stable model {p,c} in Sat.v; clingo: UNSAT)
+                     lower_bound_cycle_unsat       `1 {p : c}. c :- p.` has NO stable model (as in clingo: the bounds of a
+                                                   choice are evaluated in the total interpretation only)
                      each with the rules computed from Model.Dependency by vm_compute and an explicit stable model.
      4. ModelLink    the rules Model.Dependency.create_domain emits for
                         {a(X)} :- d(X).  b(X,Y) :- a(X), e(X,Y).  c(X) :- b(X,_), not f(X).
                      by vm_compute, and both theorems instantiated on them (model_domains_overapprox,
                      model_domains_choice_free); the validator accepts them and rejects the witnesses of 3.
-   Axiom used: Classical_Prop.classic in sections 0-2, 1b, 4 and domain_negation_not_covered (case splits on T a, and
-   Ground.finite_enum for counts).  The four refutations of section 3 are axiom-free. *)
+   Axiom used: Classical_Prop.classic in sections 0-2, 1b, 4 and domain_negation_not_covered (case splits on T a).
+   The four witnesses of section 3 are axiom-free. *)
 From Coq Require Import List String ZArith Bool Classical Permutation Arith Lia.
 From NGO Require Import Syntax.Ast Sem.Sym Sem.Sat Link.AggSem Link.NormalizeSpec Link.SubstSpec Link.InlineSem.
 From NGO Require Link.Ground Link.ChainSem Link.CleanupSpec Model.Normalize Model.Globals Model.Dependency.
@@ -48,21 +49,6 @@ Open Scope string_scope. Open Scope list_scope.
 
 (* the positive symbolic literal n(args) *)
 Definition dlit (n: string) (args: list term) (e: bool) : lit := Lit NoSign (ASym (TFun n args e)).
-
-(* bounds that can only be violated by too MANY atoms:   t >= { .. },  t > { .. },  { .. } <= t,  { .. } < t *)
-Definition upper_guards (lg rg: option guard) : Prop :=
-  match lg with None => True | Some (o, _) => o = CGe \/ o = CGt end /\
-  match rg with None => True | Some (o, _) => o = CLe \/ o = CLt end.
-
-Definition upper_guardsb (lg rg: option guard) : bool :=
-  match lg with None => true | Some (CGe, _) => true | Some (CGt, _) => true | _ => false end &&
-  match rg with None => true | Some (CLe, _) => true | Some (CLt, _) => true | _ => false end.
-Lemma upper_guardsb_spec lg rg : upper_guardsb lg rg = true -> upper_guards lg rg.
-Proof.
-  unfold upper_guardsb, upper_guards. intro B. apply andb_true_iff in B. destruct B as [B1 B2]. split.
-  - destruct lg as [[o t]|]; [|exact Logic.I]. destruct o; try discriminate; auto.
-  - destruct rg as [[o t]|]; [|exact Logic.I]. destruct o; try discriminate; auto.
-Qed.
 
 (* ================================================================================================ *)
 (* 0. Lifting the satisfaction of heads from (T,T) to (X,T), X <= T                                 *)
@@ -93,31 +79,6 @@ Proof. intros S C. eapply CleanupSpec.lits_sat_persist_proof; [exact S|exact C].
 Lemma lit_persist G X T th l : subi X T -> lit_sat G X T th l -> lit_sat G T T th l.
 Proof. intros S C. eapply CleanupSpec.lit_sat_persist_all_proof; [exact S|exact C]. Qed.
 
-Lemma choice_tuples_sub G X T s es tv : subi X T -> choice_tuples G X T s es tv -> choice_tuples G T T s es tv.
-Proof.
-  intros S (c & th & n & args & ext & vs & Hc & Ag & Ef & Ev & Etv & Cs & Hv).
-  exists c, th, n, args, ext, vs. repeat (split; [assumption|]). split; [exact (lits_persist _ _ _ _ _ S Cs)|apply S; exact Hv].
-Qed.
-
-(* a smaller count still satisfies upper bounds *)
-Lemma upper_guards_mono (Ord: sym_order sym_lt) s lg rg (k k': nat) : upper_guards lg rg -> (k' <= k)%nat ->
-  guard_ok s true lg (SNum (Z.of_nat k)) -> guard_ok s false rg (SNum (Z.of_nat k)) ->
-  guard_ok s true lg (SNum (Z.of_nat k')) /\ guard_ok s false rg (SNum (Z.of_nat k')).
-Proof.
-  intros [UL UR] Le GL GR.
-  assert (Cmp: k' = k \/ sym_lt (SNum (Z.of_nat k')) (SNum (Z.of_nat k))).
-  { destruct (Nat.eq_dec k' k) as [E|NE]; [left; exact E|right]. apply (lt_num _ Ord). lia. }
-  destruct Cmp as [->|Lt]; [split; assumption|]. split.
-  - destruct lg as [[o t]|]; [|exact Logic.I]. simpl in *. destruct (eval s t) as [w|]; [|exact GL].
-    destruct UL as [->| ->]; simpl in *.
-    + left. destruct GL as [L|E]; [exact (lt_trans _ Ord _ _ _ Lt L)|subst w; exact Lt].
-    + exact (lt_trans _ Ord _ _ _ Lt GL).
-  - destruct rg as [[o t]|]; [|exact Logic.I]. simpl in *. destruct (eval s t) as [w|]; [|exact GR].
-    destruct UR as [->| ->]; simpl in *.
-    + left. destruct GR as [L|E]; [exact (lt_trans _ Ord _ _ _ Lt L)|subst w; exact Lt].
-    + exact (lt_trans _ Ord _ _ _ Lt GR).
-Qed.
-
 (* the element-wise part of a choice head: an atom of T whose condition holds in (X,T) is kept in X *)
 Definition keeps (G: list string) (X T: interp) (s: subst) (es: list condlit) : Prop :=
   forall c th, In c es -> agree_on G s th -> lits_sat G X T th (snd c) -> lit_sat G T T th (fst c) -> lit_sat G X T th (fst c).
@@ -128,41 +89,24 @@ Proof.
   exact (K c th Hc Ag Cs Y).
 Qed.
 
-(* choice with upper bounds only: ANY conditions *)
-Lemma choice_upper_lift (Ord: sym_order sym_lt) G X T s lg es rg : subi X T -> upper_guards lg rg ->
+(* choice with ANY bounds and ANY conditions: Sem/Sat.v evaluates the bounds in the total interpretation only (clingo:
+   `l { .. } u :- B` is the choice `{ .. } :- B` plus the constraint `:- B, not l { .. } u`) *)
+Lemma choice_lift G X T s lg es rg :
   keeps G X T s es -> head_sat G T T s (HAgg lg es rg) -> head_sat G X T s (HAgg lg es rg).
 Proof.
-  intros S U K [_ [AT AT']]. simpl. split; [exact (keeps_choice_elems_ok _ _ _ _ _ K)|]. split; [|exact AT'].
-  destruct AT as [v [[l [[ND En] Ev]] [GL GR]]].
-  assert (Sub: forall tv, choice_tuples G X T s es tv -> In tv l).
-  { intros tv Htv. apply En. exact (choice_tuples_sub _ _ _ _ _ _ S Htv). }
-  destruct (Ground.finite_enum l (choice_tuples G X T s es) Sub) as [l' [ND' En']].
-  assert (Le: (List.length l' <= List.length l)%nat).
-  { apply NoDup_incl_length; [exact ND'|]. intros x Hx. apply Sub. apply En'. exact Hx. }
-  subst v. destruct (upper_guards_mono Ord s lg rg _ _ U Le GL GR) as [GL' GR'].
-  exists (SNum (Z.of_nat (List.length l'))). split; [exists l'; split; [split; assumption|reflexivity]|]. split; assumption.
+  intros K [_ AT']. simpl. split; [exact (keeps_choice_elems_ok _ _ _ _ _ K)|exact AT'].
 Qed.
 
-(* conditions that mean the same in (X,T) and (T,T): ANY bounds *)
+(* ... the same for head aggregates *)
+Lemma headagg_lift G X T s lg f es rg :
+  keeps G X T s (map snd es) -> head_sat G T T s (HHeadAgg lg f es rg) -> head_sat G X T s (HHeadAgg lg f es rg).
+Proof.
+  intros K [_ AT']. simpl. split; [exact (keeps_choice_elems_ok _ _ _ _ _ K)|exact AT'].
+Qed.
+
+(* disjunctions are evaluated in (X,T): conditions that mean the same in (X,T) and (T,T) *)
 Definition conds_inv (G: list string) (X T: interp) (s: subst) (cs: list (list lit)) : Prop :=
   forall c th, In c cs -> agree_on G s th -> lits_sat G T T th c -> lits_sat G X T th c.
-
-Lemma choice_inv_lift G X T s lg es rg : subi X T -> conds_inv G X T s (map snd es) ->
-  keeps G X T s es -> (forall c, In c es -> exists n args e, fst c = dlit n args e) ->
-  head_sat G T T s (HAgg lg es rg) -> head_sat G X T s (HAgg lg es rg).
-Proof.
-  intros S CI K At [_ [AT AT']]. simpl. split; [exact (keeps_choice_elems_ok _ _ _ _ _ K)|]. split; [|exact AT'].
-  assert (TE: tup_eq (choice_tuples G X T s es) (choice_tuples G T T s es));
-    [|exact (proj2 (agg_holds_ext sym_lt s lg FCount rg _ _ TE) AT)].
-  intro tv. split; [apply choice_tuples_sub; exact S|].
-  intros (c & th & n & args & ext & vs & Hc & Ag & Ef & Ev & Etv & Cs & Hv).
-  exists c, th, n, args, ext, vs. repeat (split; [assumption|]).
-  assert (Cs': lits_sat G X T th (snd c)) by (apply (CI (snd c) th); [apply in_map; exact Hc|exact Ag|exact Cs]).
-  split; [exact Cs'|].
-  assert (L: lit_sat G X T th (fst c)).
-  { apply (K c th Hc Ag Cs'). rewrite Ef. apply lit_sat_fun. exists vs. split; [exact Ev|exact Hv]. }
-  rewrite Ef in L. apply lit_sat_fun in L. destruct L as [vs' [Ev' Hv']]. rewrite Ev in Ev'. injection Ev' as <-. exact Hv'.
-Qed.
 
 Lemma disj_inv_lift G X T s es : conds_inv G X T s (map snd es) -> keeps G X T s es ->
   head_sat G T T s (HDisj es) -> head_sat G X T s (HDisj es).
@@ -170,22 +114,6 @@ Proof.
   intros CI K (c & th & Hc & Ag & Cs & L). simpl.
   assert (Cs': lits_sat G X T th (snd c)) by (apply (CI (snd c) th); [apply in_map; exact Hc|exact Ag|exact Cs]).
   exists c, th. repeat (split; [assumption|]). exact (K c th Hc Ag Cs' L).
-Qed.
-
-Lemma headagg_inv_lift G X T s lg f es rg : subi X T -> conds_inv G X T s (map snd (map snd es)) ->
-  keeps G X T s (map snd es) ->
-  head_sat G T T s (HHeadAgg lg f es rg) -> head_sat G X T s (HHeadAgg lg f es rg).
-Proof.
-  intros S CI K [_ [AT AT']]. simpl. split; [exact (keeps_choice_elems_ok _ _ _ _ _ K)|]. split; [|exact AT'].
-  assert (TE: tup_eq (headagg_tuples G X T s es) (headagg_tuples G T T s es));
-    [|exact (proj2 (agg_holds_ext sym_lt s lg f rg _ _ TE) AT)].
-  intro tv. split.
-  - intros (e & th & He & Ag & Ev & Cs & L). exists e, th. repeat (split; [assumption|]).
-    split; [exact (lits_persist _ _ _ _ _ S Cs)|exact (lit_persist _ _ _ _ _ S L)].
-  - intros (e & th & He & Ag & Ev & Cs & L). exists e, th. repeat (split; [assumption|]).
-    assert (Cs': lits_sat G X T th (snd (snd e))).
-    { apply (CI (snd (snd e)) th); [apply in_map; apply in_map; exact He|exact Ag|exact Cs]. }
-    split; [exact Cs'|]. apply (K (snd e) th); [apply in_map; exact He|exact Ag|exact Cs'|exact L].
 Qed.
 
 (* simple literals that are not positive symbolic atoms do not look at H *)
@@ -263,15 +191,14 @@ Inductive dhead (Q: program) (b: list bodyelem) (G: list string) : head -> Prop 
     dhead Q b G (HLit (dlit n args e))
 | DH_lit l :                    (* #false, not p(t), not not p(t), comparisons *)
     Normalize.simple_lit_b l = true -> (forall t, l <> Lit NoSign (ASym t)) -> dhead Q b G (HLit l)
-| DH_choice lg es rg :
+| DH_choice lg es rg :          (* ANY bounds, ANY conditions *)
     (forall c, In c es -> elem_ok Q G b c) ->
-    (upper_guards lg rg \/ forall c l, In c es -> In l (snd c) -> static_lit l) ->
     dhead Q b G (HAgg lg es rg)
 | DH_disj es :
     (forall c, In c es -> elem_ok Q G b c) -> (forall c l, In c es -> In l (snd c) -> static_lit l) ->
     dhead Q b G (HDisj es)
-| DH_headagg lg f es rg :
-    (forall e, In e es -> elem_ok Q G b (snd e)) -> (forall e l, In e es -> In l (snd (snd e)) -> static_lit l) ->
+| DH_headagg lg f es rg :       (* ANY bounds, ANY conditions *)
+    (forall e, In e es -> elem_ok Q G b (snd e)) ->
     dhead Q b G (HHeadAgg lg f es rg).
 
 Lemma static_lit_inv G T th l : static_lit l -> lit_sat G T T th l -> lit_sat G (good T) T th l.
@@ -364,16 +291,14 @@ Qed.
      Frag  every rule of Q has a head of the fragment, and for every head atom / head element over a predicate p with
            dom p = Some dn the program contains a domain rule  dn(args) :- B'  with B' covered by the source;
      Facts the instance facts are closed under dom (in particular: no instance facts over predicates with a domain,
-           see domain_ignores_input_refuted);
-     Ord   only used for choices with upper bounds. *)
+           see domain_ignores_input_refuted). *)
 Theorem domain_overapprox Q I T :
-  sym_order sym_lt ->
   (forall line h b, In (SRule line h b) Q -> dhead Q b (gvars_rule h b) h) ->
   (forall a dn, In a I -> dom (gpred a) = Some dn -> In (dn, snd a) I) ->
   stable Q I T ->
   forall n vs dn, dom (n, List.length vs) = Some dn -> T (n, vs) -> T (dn, vs).
 Proof.
-  intros Ord Frag Facts [[PT FT] Min].
+  intros Frag Facts [[PT FT] Min].
   pose proof (good_sub T) as S.
   assert (PS: prog_sat (good T) T Q).
   { intros st Hin. destruct st as [line h b| | | |]; try exact Logic.I.
@@ -381,7 +306,7 @@ Proof.
     intros BH. pose proof (ChainSem.body_sat_persist sym_lt _ _ _ _ _ S BH) as BT. specialize (RTs BT).
     pose proof (Frag _ _ _ Hin) as DH. set (G := gvars_rule h b) in *.
     assert (Ag0: agree_on G s s) by (intros x _; reflexivity).
-    inversion DH as [n args e Dr E|l Sm NP E|lg es rg EO Alt E|es EO St E|lg f es rg EO St E]; subst h.
+    inversion DH as [n args e Dr E|l Sm NP E|lg es rg EO E|es EO St E|lg f es rg EO E]; subst h.
     - (* atom head *)
       change (lit_sat G T T s (dlit n args e)) in RTs. change (lit_sat G (good T) T s (dlit n args e)).
       apply dlit_sat in RTs. destruct RTs as [vs [Ev Tv]]. apply dlit_sat. exists vs. split; [exact Ev|]. split; [exact Tv|].
@@ -389,20 +314,15 @@ Proof.
       apply (keep Q T _ b s s [] dn args vs PT Ag0 BH); [constructor|exact (Dr dn D)|exact Ev].
     - change (lit_sat G T T s l) in RTs. change (lit_sat G (good T) T s l).
       apply (nonpos_lit_HT sym_lt G (good T) T s l Sm NP). exact RTs.
-    - pose proof (elems_keep Q T _ b s es PT BH EO) as K. fold G in K. destruct Alt as [U|St].
-      + exact (choice_upper_lift sym_lt Ord G (good T) T s lg es rg S U K RTs).
-      + apply (choice_inv_lift sym_lt G (good T) T s lg es rg S); try assumption.
-        * apply static_conds_inv. intros c l Hc Hl. apply in_map_iff in Hc. destruct Hc as [c0 [<- Hc0]]. exact (St c0 l Hc0 Hl).
-        * intros c Hc. destruct (EO c Hc) as (n & args & e & Ef & _). eauto.
+    - pose proof (elems_keep Q T _ b s es PT BH EO) as K. fold G in K.
+      exact (choice_lift sym_lt G (good T) T s lg es rg K RTs).
     - pose proof (elems_keep Q T _ b s es PT BH EO) as K. fold G in K.
       apply (disj_inv_lift sym_lt G (good T) T s es); try assumption.
       apply static_conds_inv. intros c l Hc Hl. apply in_map_iff in Hc. destruct Hc as [c0 [<- Hc0]]. exact (St c0 l Hc0 Hl).
     - assert (EO': forall c, In c (map snd es) -> elem_ok Q G b c).
       { intros c Hc. apply in_map_iff in Hc. destruct Hc as [e0 [<- He0]]. exact (EO e0 He0). }
       pose proof (elems_keep Q T _ b s (map snd es) PT BH EO') as K. fold G in K.
-      apply (headagg_inv_lift sym_lt G (good T) T s lg f es rg S); try assumption.
-      apply static_conds_inv. intros c l Hc Hl. apply in_map_iff in Hc. destruct Hc as [c0 [<- Hc0]].
-      apply in_map_iff in Hc0. destruct Hc0 as [e0 [<- He0]]. exact (St e0 l He0 Hl). }
+      exact (headagg_lift sym_lt G (good T) T s lg f es rg K RTs). }
   assert (FH: facts_sat (good T) I).
   { intros a Ha. split; [apply FT; exact Ha|]. intros dn D. apply FT. exact (Facts a dn Ha D). }
   intros n vs dn D Tv. destruct (Min (good T) S PS FH (n, vs) Tv) as [_ K]. exact (K dn D).
@@ -411,14 +331,13 @@ Qed.
 (* the shape P ++ DR with instance facts I: the domain rules have heads over predicates without domain and the
    instance has no facts over predicates with a domain *)
 Corollary domain_overapprox_split P DR I T :
-  sym_order sym_lt ->
   (forall line h b, In (SRule line h b) P -> dhead (P ++ DR) b (gvars_rule h b) h) ->
   (forall line h b, In (SRule line h b) DR -> exists dn args e, h = HLit (dlit dn args e) /\ dom (dn, List.length args) = None) ->
   (forall a, In a I -> dom (gpred a) = None) ->
   stable (P ++ DR) I T ->
   forall n vs dn, dom (n, List.length vs) = Some dn -> T (n, vs) -> T (dn, vs).
 Proof.
-  intros Ord FP FD FI St. apply (domain_overapprox (P ++ DR) I T Ord); [| |exact St].
+  intros FP FD FI St. apply (domain_overapprox (P ++ DR) I T); [| |exact St].
   - intros line h b Hin. apply in_app_or in Hin. destruct Hin as [Hin|Hin]; [exact (FP _ _ _ Hin)|].
     destruct (FD _ _ _ Hin) as (dn & args & e & -> & N). apply DH_atom. intros dn' D. rewrite N in D. discriminate D.
   - intros a dn Ha D. rewrite (FI a Ha) in D. discriminate D.
@@ -440,22 +359,21 @@ Definition def_rule (low0: pred -> bool) (st: stmt) : Prop :=
   | SRule _ h b => (exists n args e, h = HLit (dlit n args e)) /\ forall x, In x b -> def_elem low0 x
   | _ => True
   end.
-(* a choice over predicates that are not low with upper bounds only: its CONDITIONS may mention low predicates *)
-Definition upper_top (low: pred -> bool) (st: stmt) : Prop :=
+(* a choice (ANY bounds) over predicates that are not low: its CONDITIONS may mention low predicates *)
+Definition choice_top (low: pred -> bool) (st: stmt) : Prop :=
   match st with
   | SRule _ (HAgg lg es rg) _ =>
-      upper_guards lg rg /\ forall c, In c es -> exists n args e, fst c = dlit n args e /\ low (n, List.length args) = false
+      forall c, In c es -> exists n args e, fst c = dlit n args e /\ low (n, List.length args) = false
   | _ => False
   end.
 (* Q = bottom part B (within low, definite modulo low0)  +  statements whose heads do not mention low at all
-   (constraints included) + upper-bounded choices over non-low predicates *)
+   (constraints included) + choices over non-low predicates *)
 Definition layered (low0 low: pred -> bool) (B Q: program) : Prop :=
   forall st, In st Q ->
-    (In st B /\ stmt_in low st = true /\ def_rule low0 st) \/ stmt_head_in (nlow low) st = true \/ upper_top low st.
+    (In st B /\ stmt_in low st = true /\ def_rule low0 st) \/ stmt_head_in (nlow low) st = true \/ choice_top low st.
 
 Section ChoiceFree.
 Variable sym_lt : sym -> sym -> Prop.
-Hypothesis Ord : sym_order sym_lt.
 Notation lit_sat := (Sat.lit_sat sym_lt).
 Notation lits_sat := (Sat.lits_sat sym_lt).
 Notation bodyelem_sat := (Sat.bodyelem_sat sym_lt).
@@ -500,9 +418,9 @@ Proof.
       rewrite Ev in Ev'. injection Ev' as <-. apply dlit_sat. exists vs. split; [exact Ev|]. split; [exact Tv|intros _; exact Tv'].
     - exact (head_in_sat_lift sym_lt (nlow low) H T1 st Top S ATop (PT st Hin)).
     - destruct st as [line h b| | | |]; try contradiction. destruct h as [l|es|lg es rg|lg f es rg|tx]; try contradiction.
-      destruct Up as [U At]. pose proof (PT _ Hin) as R1. simpl in R1 |- *. intros s. destruct (R1 s) as [_ R1s]. split; [|exact R1s].
+      rename Up into At. pose proof (PT _ Hin) as R1. simpl in R1 |- *. intros s. destruct (R1 s) as [_ R1s]. split; [|exact R1s].
       intros BH. pose proof (ChainSem.body_sat_persist sym_lt _ _ _ _ _ S BH) as BT. specialize (R1s BT).
-      apply (choice_upper_lift sym_lt Ord _ H T1 s lg es rg S U); [|exact R1s].
+      apply (choice_lift sym_lt _ H T1 s lg es rg); [|exact R1s].
       intros c th Hc Ag Cs L. destruct (At c Hc) as (n & args & e & Ef & Nl). rewrite Ef in *.
       apply dlit_sat in L. destruct L as [vs [Ev Tv]]. apply dlit_sat. exists vs. split; [exact Ev|]. split; [exact Tv|].
       unfold gpred. simpl. rewrite (ChainSem.eval_list_length _ _ _ Ev), Nl. discriminate. }
@@ -723,10 +641,9 @@ Definition dheadb (Q: program) (b: list bodyelem) (h: head) : bool :=
       | _ => Normalize.simple_lit_b l
       end
   | HAgg lg es rg =>
-      forallb (elem_okb Q b) es && (upper_guardsb lg rg || forallb (fun c => forallb static_litb (snd c)) es)
+      forallb (elem_okb Q b) es
   | HDisj es => forallb (elem_okb Q b) es && forallb (fun c => forallb static_litb (snd c)) es
-  | HHeadAgg _ _ es _ =>
-      forallb (fun e: helem => elem_okb Q b (snd e)) es && forallb (fun e: helem => forallb static_litb (snd (snd e))) es
+  | HHeadAgg _ _ es _ => forallb (fun e: helem => elem_okb Q b (snd e)) es
   | HTheory _ => false
   end.
 
@@ -750,12 +667,8 @@ Proof.
   - apply andb_true_iff in E. destruct E as [E1 E2]. rewrite forallb_forall in E1. apply DH_disj.
     + intros c Hc. exact (elem_okb_sound Q G b c (E1 c Hc)).
     + exact (static_all_sound snd es E2).
-  - apply andb_true_iff in E. destruct E as [E1 E2]. rewrite forallb_forall in E1. apply DH_choice.
-    + intros c Hc. exact (elem_okb_sound Q G b c (E1 c Hc)).
-    + apply orb_true_iff in E2. destruct E2 as [U|St]; [left; exact (upper_guardsb_spec lg rg U)|right; exact (static_all_sound snd es St)].
-  - apply andb_true_iff in E. destruct E as [E1 E2]. rewrite forallb_forall in E1. apply DH_headagg.
-    + intros e He. exact (elem_okb_sound Q G b (snd e) (E1 e He)).
-    + exact (static_all_sound (fun e: helem => snd (snd e)) es E2).
+  - rewrite forallb_forall in E. apply DH_choice. intros c Hc. exact (elem_okb_sound Q G b c (E c Hc)).
+  - rewrite forallb_forall in E. apply DH_headagg. intros e He. exact (elem_okb_sound Q G b (snd e) (E e He)).
 Qed.
 
 Definition fragb (Q: program) : bool :=
@@ -763,10 +676,10 @@ Definition fragb (Q: program) : bool :=
 Definition facts_nodomb (I: list gatom) : bool := forallb (fun a => nodom dom (gpred a)) I.
 
 Theorem domain_overapprox_checked (sym_lt: sym -> sym -> Prop) Q I T :
-  sym_order sym_lt -> fragb Q = true -> facts_nodomb I = true -> Sat.stable sym_lt Q I T ->
+  fragb Q = true -> facts_nodomb I = true -> Sat.stable sym_lt Q I T ->
   forall n vs dn, dom (n, List.length vs) = Some dn -> T (n, vs) -> T (dn, vs).
 Proof.
-  intros Ord F FI St. apply (domain_overapprox sym_lt dom Q I T Ord); [| |exact St].
+  intros F FI St. apply (domain_overapprox sym_lt dom Q I T); [| |exact St].
   - unfold fragb in F. rewrite forallb_forall in F. intros line h b Hin. apply dheadb_sound. exact (F _ Hin).
   - unfold facts_nodomb in FI. rewrite forallb_forall in FI. intros a dn Ha D. specialize (FI a Ha). unfold nodom in FI.
     rewrite D in FI. discriminate FI.
@@ -777,10 +690,10 @@ End Checker.
    extended by the emitted rules, the domain predicates over-approximate in every answer set *)
 Corollary model_output_validated (sym_lt: sym -> sym -> Prop) (P: program) (ins: list pred) (p: pred)
     (doms: list (pred * pred)) (DR: program) (I: list gatom) (T: interp) :
-  sym_order sym_lt -> run_create_domain P ins p = (doms, Ok DR) ->
+  run_create_domain P ins p = (doms, Ok DR) ->
   fragb (dom_of doms) (P ++ DR) = true -> facts_nodomb (dom_of doms) I = true -> Sat.stable sym_lt (P ++ DR) I T ->
   forall n vs dn, dom_of doms (n, List.length vs) = Some dn -> T (n, vs) -> T (dn, vs).
-Proof. intros Ord _. apply domain_overapprox_checked. exact Ord. Qed.
+Proof. intros _. apply domain_overapprox_checked. Qed.
 
 (* ================================================================================================ *)
 (* 3. Refutations: what the Python emits where a side condition fails                               *)
@@ -810,11 +723,8 @@ Definition choice1 (line: nat) (hn: string) (hxs: list string) (bs: list (string
 Lemma choice_head_none G X T s lg_unused hn hxs (C: list lit) : lg_unused = tt -> subi X T -> (forall vs, ~ T (hn, vs)) ->
   head_sat G X T s (HAgg None [(at_ hn hxs, C)] None).
 Proof.
-  intros _ S N. simpl. split; [|split].
+  intros _ S N. simpl. split.
   - intros e th [<-|[]] Ag Cs. right. simpl. rewrite at_sat. apply N.
-  - exists (SNum 0). split; [|split; exact Logic.I]. exists []. split; [|reflexivity]. split; [constructor|].
-    intro tv. split; [intros []|]. intros (c & th & n & args & ext & vs & [<-|[]] & Ag & Ef & Ev & Etv & Cs & Hv).
-    simpl in Ef. injection Ef as -> _ _. exact (N vs (S _ Hv)).
   - exists (SNum 0). split; [|split; exact Logic.I]. exists []. split; [|reflexivity]. split; [constructor|].
     intro tv. split; [intros []|]. intros (c & th & n & args & ext & vs & [<-|[]] & Ag & Ef & Ev & Etv & Cs & Hv).
     simpl in Ef. injection Ef as -> _ _. exact (N vs Hv).
@@ -886,15 +796,15 @@ Qed.
 
 (* hence the fragment hypothesis of domain_overapprox_split must fail on the emitted rules (the literal
    `not __dom_r(X)` is not covered: only POSITIVE atoms may be replaced by their domain atoms) *)
-Corollary domain_negation_not_covered : sym_order sym_lt ->
+Corollary domain_negation_not_covered :
   ~ (forall line h b, In (SRule line h b) neg_P ->
        dhead (dom_of neg_doms) (neg_P ++ neg_DR) b (gvars_rule h b) h).
 Proof.
-  intros Ord Frag. destruct domain_negation_refuted as (_ & FI & St & D & Tp & NTd). apply NTd.
+  intros Frag. destruct domain_negation_refuted as (_ & FI & St & D & Tp & NTd). apply NTd.
   assert (DRh: forall line h b, In (SRule line h b) neg_DR ->
             exists dn args e, h = HLit (dlit dn args e) /\ dom_of neg_doms (dn, List.length args) = None).
   { intros line h b [E|[E|[]]]; injection E as _ <- _; do 3 eexists; (split; [reflexivity|reflexivity]). }
-  exact (domain_overapprox_split sym_lt (dom_of neg_doms) neg_P neg_DR neg_I neg_T Ord Frag DRh FI St "p" [c1; c1] "__dom_p" D Tp).
+  exact (domain_overapprox_split sym_lt (dom_of neg_doms) neg_P neg_DR neg_I neg_T Frag DRh FI St "p" [c1; c1] "__dom_p" D Tp).
 Qed.
 
 (* ---- (b) known finding domain-ignores-input:  { a(X) } :- d(X).  b(X) :- a(X).   inputs a/1, d/1, instance a(5) ---- *)
@@ -938,7 +848,7 @@ Theorem domain_ignores_input_refuted :
 Proof.
   split; [exact inp_model|]. split; [|split; [|split; [left; reflexivity|split; [reflexivity|split; [exact inp_stable|]]]]].
   - intros line h b [E|[E|[]]]; injection E as _ <- <-.
-    + apply DH_choice; [|left; split; exact Logic.I]. intros c [<-|[]]. exists "a", [TVar "X"], false. split; [reflexivity|].
+    + apply DH_choice. intros c [<-|[]]. exists "a", [TVar "X"], false. split; [reflexivity|].
       intros dn D. vm_compute in D. injection D as <-. exists 1%nat, false, [BLit (at_ "d" ["X"])].
       split; [simpl; tauto|]. intros x [<-|[]]. apply CV_copy; [reflexivity|left; left; reflexivity].
     + apply (DH_atom (dom_of inp_doms) _ _ _ "b" [TVar "X"] false). intros dn D. vm_compute in D. injection D as <-.
@@ -1016,17 +926,18 @@ Proof.
   split; [reflexivity|]. split; [unfold cnd_T; simpl; tauto|]. intro F. inl F.
 Qed.
 
-(* ---- (d) why a choice with a LOWER bound needs static conditions (in Sem/Sat.v):   1 { p : c }.  c :- p.
-        with  dp :- dc.  dc :- dp.   Every element has its covered domain rule, but {p, c} is stable in Sat.v (the
-        lower bound is part of the head formula and is evaluated in H) and neither dp nor dc holds.
-        clingo 5.8.2 reports this program UNSATISFIABLE: it reads the bound as a constraint. ---- *)
+(* ---- (d) a choice with a LOWER bound and a non-static condition:   1 { p : c }.  c :- p.
+        with  dp :- dc.  dc :- dp.   Every element has its covered domain rule.  clingo 5.8.2 reports this program
+        UNSATISFIABLE: it reads the bound as a constraint `:- not 1 { p : c }`.  So does Sem/Sat.v: the bounds of a
+        choice are evaluated in the total interpretation only, hence H := T minus {p, c} is a smaller HT-model of
+        every candidate T.  (Under the former reading of Sat.v, bounds evaluated in H as well, {p, c} was stable
+        with neither dp nor dc; that artefact is gone, and with it the reason to treat lower bounds specially.) ---- *)
 Definition lb_choice : stmt := SRule 1 (HAgg (Some (CLe, TSym (SNum 1))) [(at_ "p" [], [at_ "c" []])] None) [].
 Definition lb_Q : program := [lb_choice; prule 1 "c" [] [("p", [])]; prule 1 "dp" [] [("dc", [])]; prule 1 "dc" [] [("dp", [])]].
 Definition lb_dom (p: pred) : option string :=
   if pred_eqb p ("p", 0%nat) then Some "dp" else if pred_eqb p ("c", 0%nat) then Some "dc" else None.
-Definition lb_T : interp := fun a => In a [("p", []); ("c", [])].
 
-Lemma lb_tuples G (X: interp) s tv : Sat.choice_tuples sym_lt G X lb_T s [(at_ "p" [], [at_ "c" []])] tv <->
+Lemma lb_tuples G (X T: interp) s tv : Sat.choice_tuples sym_lt G X T s [(at_ "p" [], [at_ "c" []])] tv <->
   tv = [SFun "p" [] true] /\ X ("c", []) /\ X ("p", []).
 Proof.
   split.
@@ -1037,53 +948,57 @@ Proof.
     simpl. rewrite (lits_sat_one sym_lt), at_sat. simpl. exact Xc.
 Qed.
 
-Lemma lb_stable : sym_order sym_lt -> stable lb_Q [] lb_T.
+(* no answer set, as in clingo *)
+Lemma lb_unsat : sym_order sym_lt -> forall T, ~ stable lb_Q [] T.
 Proof.
-  intro Ord. split; [split|].
-  - intros st [<-|[<-|[<-|[<-|[]]]]].
-    + simpl. intro s. assert (HS: head_sat [] lb_T lb_T s (HAgg (Some (CLe, TSym (SNum 1))) [(at_ "p" [], [at_ "c" []])] None)).
-      { simpl. assert (AH: Sat.agg_holds sym_lt s (Some (CLe, TSym (SNum 1))) FCount None
-                            (Sat.choice_tuples sym_lt [] lb_T lb_T s [(at_ "p" [], [at_ "c" []])])).
-        { exists (SNum 1). split; [|split; [simpl; right; reflexivity|exact Logic.I]].
-          exists [[SFun "p" [] true]]. split; [|reflexivity]. split; [constructor; [intros []|constructor]|].
-          intro tv. rewrite lb_tuples. unfold lb_T. simpl. split; [intros [<-|[]]; tauto|intros [-> _]; left; reflexivity]. }
-        split; [|split; exact AH]. intros e th [<-|[]] _ _. left. simpl. rewrite at_sat. unfold lb_T. simpl. tauto. }
-      split; intros _; exact HS.
-    + apply prule_sat. intro s. split; intros _; unfold lb_T; simpl; tauto.
-    + apply prule_sat. intro s. split; intros F; pose proof (F _ (or_introl eq_refl)) as Y; inl Y.
-    + apply prule_sat. intro s. split; intros F; pose proof (F _ (or_introl eq_refl)) as Y; inl Y.
-  - intros a [].
-  - intros H S PS _ a Ta.
-    pose proof (PS lb_choice (or_introl eq_refl)) as R. simpl in R. destruct (R (sX c1)) as [RH _].
-    destruct (RH (Forall_nil _)) as [_ [[v [[l [[_ En] ->]] [GL _]]] _]]. simpl in GL.
-    assert (Ne: l <> []).
-    { intros ->. simpl in GL. destruct GL as [L|E]; [apply (lt_num _ Ord) in L; lia|discriminate E]. }
-    destruct l as [|tv l]; [contradiction|]. pose proof (proj1 (En tv) (or_introl eq_refl)) as Tu.
-    apply lb_tuples in Tu. destruct Tu as (_ & Hc & Hp). inl Ta; subst a; assumption.
+  intros Ord T [[PT _] Min].
+  pose proof (PT lb_choice (or_introl eq_refl)) as R. simpl in R. destruct (R (sX c1)) as [_ RT].
+  destruct (RT (Forall_nil _)) as [_ [v [[l [[_ En] ->]] [GL _]]]]. simpl in GL.
+  assert (Ne: l <> []).
+  { intros ->. simpl in GL. destruct GL as [L|E]; [apply (lt_num _ Ord) in L; lia|discriminate E]. }
+  destruct l as [|tv l]; [contradiction|]. pose proof (proj1 (En tv) (or_introl eq_refl)) as Tu.
+  apply lb_tuples in Tu. destruct Tu as (_ & Tc & Tp).
+  set (H := fun a : gatom => T a /\ a <> ("p", []) /\ a <> ("c", [])).
+  assert (S: subi H T) by (intros a [Ta _]; exact Ta).
+  assert (PS: prog_sat H T lb_Q).
+  { intros st [<-|[<-|[<-|[<-|[]]]]].
+    - simpl. intro s. destruct (R s) as [_ RTs]. split; intros _; [|exact (RTs (Forall_nil _))].
+      destruct (RTs (Forall_nil _)) as [_ AT]. split; [|exact AT].
+      intros e th [<-|[]] _ Cs. simpl in Cs. rewrite (lits_sat_one sym_lt), at_sat in Cs. simpl in Cs.
+      destruct Cs as [_ [_ N]]. exfalso. apply N. reflexivity.
+    - apply prule_sat. intro s.
+      pose proof (proj1 (prule_sat T T _ _ _ _) (PT (prule 1 "c" [] [("p", [])]) (or_intror (or_introl eq_refl))) s) as [_ R2].
+      split; [|exact R2]. intros F. pose proof (F _ (or_introl eq_refl)) as Y. simpl in Y.
+      destruct Y as [_ [N _]]. exfalso. apply N. reflexivity.
+    - apply prule_sat. intro s.
+      pose proof (proj1 (prule_sat T T _ _ _ _) (PT (prule 1 "dp" [] [("dc", [])]) (or_intror (or_intror (or_introl eq_refl)))) s) as [_ R2].
+      split; [|exact R2]. intros F. split; [|split; discriminate].
+      apply R2. intros p Hp. apply S. apply F. exact Hp.
+    - apply prule_sat. intro s.
+      pose proof (proj1 (prule_sat T T _ _ _ _) (PT (prule 1 "dc" [] [("dp", [])]) (or_intror (or_intror (or_intror (or_introl eq_refl))))) s) as [_ R2].
+      split; [|exact R2]. intros F. split; [|split; discriminate].
+      apply R2. intros p Hp. apply S. apply F. exact Hp. }
+  destruct (Min H S PS (fun a (F: In a []) => match F with end) _ Tp) as [_ [N _]]. apply N. reflexivity.
 Qed.
 
-Theorem lower_bound_cycle_refuted : sym_order sym_lt ->
-  (* the element has its covered domain rule ... *)
-  (forall c, In c [(at_ "p" [], [at_ "c" []])] -> elem_ok lb_dom lb_Q (gvars_rule (HAgg (Some (CLe, TSym (SNum 1))) [(at_ "p" [], [at_ "c" []])] None) []) [] c) /\
-  (* ... so do the atom heads ... *)
-  (forall line h b, In (SRule line h b) (tl lb_Q) -> dhead lb_dom lb_Q b (gvars_rule h b) h) /\
-  (* ... but the bound is a lower bound and the condition is not static *)
-  ~ upper_guards (Some (CLe, TSym (SNum 1))) None /\ ~ static_lit lb_dom (at_ "c" []) /\
-  stable lb_Q [] lb_T /\ lb_dom ("p", 0%nat) = Some "dp" /\ lb_T ("p", []) /\ ~ lb_T ("dp", []).
+Theorem lower_bound_cycle_unsat : sym_order sym_lt ->
+  (* every rule is in the fragment of domain_overapprox (the choice has a LOWER bound and a non-static condition) ... *)
+  (forall line h b, In (SRule line h b) lb_Q -> dhead lb_dom lb_Q b (gvars_rule h b) h) /\
+  ~ static_lit lb_dom (at_ "c" []) /\
+  (* ... and the program has no answer set (the bound acts as a constraint) *)
+  forall T, ~ stable lb_Q [] T.
 Proof.
-  intro Ord. split; [|split; [|split; [|split; [|split; [exact (lb_stable Ord)|]]]]].
-  - intros c [<-|[]]. exists "p", [], false. split; [reflexivity|]. intros dn D. vm_compute in D. injection D as <-.
-    exists 1%nat, false, [BLit (at_ "dc" [])]. split; [simpl; tauto|]. intros x [<-|[]].
-    apply (CV_dom lb_dom _ _ _ _ "c" [] false false "dc"); [right; left; reflexivity|reflexivity].
-  - intros line h b [E|[E|[E|[]]]]; injection E as _ <- <-.
+  intro Ord. split; [|split; [|exact (lb_unsat Ord)]].
+  - intros line h b [E|[E|[E|[E|[]]]]]; injection E as _ <- <-.
+    + apply DH_choice. intros c [<-|[]]. exists "p", [], false. split; [reflexivity|]. intros dn D. vm_compute in D. injection D as <-.
+      exists 1%nat, false, [BLit (at_ "dc" [])]. split; [simpl; tauto|]. intros x [<-|[]].
+      apply (CV_dom lb_dom _ _ _ _ "c" [] false false "dc"); [right; left; reflexivity|reflexivity].
     + apply (DH_atom lb_dom _ _ _ "c" [] false). intros dn D. vm_compute in D. injection D as <-.
       exists 1%nat, false, [BLit (at_ "dp" [])]. split; [simpl; tauto|]. intros x [<-|[]].
       apply (CV_dom lb_dom _ _ _ _ "p" [] false false "dp"); [left; left; reflexivity|reflexivity].
     + apply (DH_atom lb_dom _ _ _ "dp" [] false). intros dn D. vm_compute in D. discriminate D.
     + apply (DH_atom lb_dom _ _ _ "dc" [] false). intros dn D. vm_compute in D. discriminate D.
-  - intros [[E|E] _]; discriminate E.
   - intros [E|(sg & t & Ns & E)]; [vm_compute in E; discriminate E|]. injection E as <- _. apply Ns. reflexivity.
-  - split; [reflexivity|]. split; [unfold lb_T; simpl; tauto|]. intro F. inl F.
 Qed.
 End W.
 End Witnesses.
@@ -1115,7 +1030,7 @@ Proof. vm_compute. reflexivity. Qed.
 Lemma frag4 : forall line h b, In (SRule line h b) P4 -> dhead dom4 (P4 ++ DR4) b (gvars_rule h b) h.
 Proof.
   intros line h b [E|[E|[E|[]]]]; injection E as _ <- <-.
-  - apply DH_choice; [|left; split; exact Logic.I]. intros c [<-|[]]. exists "a", [v "X"], false. split; [reflexivity|].
+  - apply DH_choice. intros c [<-|[]]. exists "a", [v "X"], false. split; [reflexivity|].
     intros dn D. vm_compute in D. injection D as <-. exists 1%nat, false, [BLit (dlit "d" [v "X"] false)].
     split; [simpl; tauto|]. intros x [<-|[]]. apply CV_copy; [reflexivity|left; left; reflexivity].
   - apply (DH_atom dom4 _ _ _ "b" [v "X"; v "Y"] false). intros dn D. vm_compute in D. injection D as <-.
@@ -1135,13 +1050,13 @@ Lemma heads4 : forall line h b, In (SRule line h b) DR4 ->
 Proof. intros line h b [E|[E|[E|[]]]]; injection E as _ <- _; do 3 eexists; (split; [reflexivity|reflexivity]). Qed.
 
 (* OVER-APPROXIMATION for the model's actual output *)
-Theorem model_domains_overapprox (sym_lt: sym -> sym -> Prop) : sym_order sym_lt ->
+Theorem model_domains_overapprox (sym_lt: sym -> sym -> Prop) :
   exists doms DR, run_create_domain P4 ins4 ("c", 1%nat) = (doms, Ok DR) /\
     forall I T, (forall a, In a I -> dom_of doms (gpred a) = None) -> Sat.stable sym_lt (P4 ++ DR) I T ->
       forall n vs dn, dom_of doms (n, List.length vs) = Some dn -> T (n, vs) -> T (dn, vs).
 Proof.
-  intro Ord. exists doms4, DR4. split; [exact model4|]. intros I T FI St.
-  exact (domain_overapprox_split sym_lt dom4 P4 DR4 I T Ord frag4 heads4 FI St).
+  exists doms4, DR4. split; [exact model4|]. intros I T FI St.
+  exact (domain_overapprox_split sym_lt dom4 P4 DR4 I T frag4 heads4 FI St).
 Qed.
 
 (* the two layers: the input predicates, then the domain predicates (`not f(X)` refers to the lower layer) *)
@@ -1161,14 +1076,14 @@ Qed.
 
 (* CHOICE-FREENESS for the model's actual output: all answer sets (for instances with the same input facts) have the
    same extension of d, e, f, __dom_a, __dom_b, __dom_c *)
-Theorem model_domains_choice_free (sym_lt: sym -> sym -> Prop) : sym_order sym_lt ->
+Theorem model_domains_choice_free (sym_lt: sym -> sym -> Prop) :
   exists doms DR, run_create_domain P4 ins4 ("c", 1%nat) = (doms, Ok DR) /\
     forall I1 I2 T1 T2, (forall a, low_dom (gpred a) = true -> (In a I1 <-> In a I2)) ->
       Sat.stable sym_lt (P4 ++ DR) I1 T1 -> Sat.stable sym_lt (P4 ++ DR) I2 T2 ->
       forall a, low_dom (gpred a) = true -> (T1 a <-> T2 a).
 Proof.
-  intro Ord. exists doms4, DR4. split; [exact model4|]. intros I1 I2 T1 T2 FI S1 S2.
-  apply (domain_choice_free_strat sym_lt Ord [low_in; low_dom] DR4 (P4 ++ DR4) (P4 ++ DR4) I1 I2 T1 T2 strat4 strat4);
+  exists doms4, DR4. split; [exact model4|]. intros I1 I2 T1 T2 FI S1 S2.
+  apply (domain_choice_free_strat sym_lt [low_in; low_dom] DR4 (P4 ++ DR4) (P4 ++ DR4) I1 I2 T1 T2 strat4 strat4);
     try assumption; try (intros st Hst; apply in_or_app; right; exact Hst); [|right; left; reflexivity].
   intros low a [<-|[<-|[]]] La; apply FI; [|exact La]. unfold low_dom. rewrite La. reflexivity.
 Qed.
@@ -1200,6 +1115,6 @@ Print Assumptions Witnesses.domain_negation_refuted.
 Print Assumptions Witnesses.domain_negation_not_covered.
 Print Assumptions Witnesses.domain_ignores_input_refuted.
 Print Assumptions Witnesses.domain_condition_refuted.
-Print Assumptions Witnesses.lower_bound_cycle_refuted.
+Print Assumptions Witnesses.lower_bound_cycle_unsat.
 Print Assumptions ModelLink.model_domains_overapprox.
 Print Assumptions ModelLink.model_domains_choice_free.
